@@ -17,6 +17,9 @@ import (
 	"example.com/scion-time/core/client"
 	"example.com/scion-time/core/server"
 	"example.com/scion-time/net/ntp"
+	"example.com/scion-time/net/udp"
+
+	"github.com/scionproto/scion/pkg/snet"
 
 	"verif.local/kit"
 	"verif.local/mc"
@@ -48,6 +51,8 @@ type env struct {
 	real          *realServer
 	srvTx         map[int]time.Time
 	lastDelivered *kit.Reply
+	scion         bool
+	sw            *kit.SCIONWorld
 }
 
 type realServer struct {
@@ -95,7 +100,11 @@ func (e *env) truth() string {
 // timestamps taken from one accepted exchange.
 func (e *env) checkRequest(d *vnet.Datagram) {
 	var p ntp.Packet
-	if err := ntp.DecodePacket(&p, d.Data); err != nil {
+	payload, _, ok := e.s.T.Unwrap(d)
+	if !ok {
+		e.x.Failf("request-undecodable", "transport layer")
+	}
+	if err := ntp.DecodePacket(&p, payload); err != nil {
 		e.x.Failf("request-undecodable", "%v", err)
 	}
 	if p.Version() != 4 || p.Mode() != ntp.ModeClient {
@@ -171,12 +180,16 @@ func (e *env) realServe(d *vnet.Datagram, fwd time.Duration) *kit.Reply {
 	time.Sleep(fwd)
 	ex := &kit.Exch{N: len(s.Exchs), Sock: d.Sock, Theta: s.Theta, Fwd: fwd, SendAt: s.SendClock[d.Seq], CTx: s.TxStamps[d.Seq]}
 	ex.Fwd = time.Since(s.SendTrue[d.Seq])
-	ntp.DecodePacket(&ex.Req, d.Data)
+	reqPayload, _, _ := s.T.Unwrap(d)
+	ntp.DecodePacket(&ex.Req, reqPayload)
 	w.Clock.Offset += s.Theta
 	rx := w.Clock.Peek()
 	before := w.Net.NumSent()
 	rd := *d
 	rd.RxTime = rx
+	if e.scion {
+		rd.From = kit.Router
+	}
 	e.real.sock.Deliver(&rd)
 	w.Settle()
 	stamp := w.Clock.Peek()
@@ -187,7 +200,8 @@ func (e *env) realServe(d *vnet.Datagram, fwd time.Duration) *kit.Reply {
 	if len(outs) != 1 {
 		e.x.Failf("server-no-reply", "the listener wrote %d datagrams for a well-formed request", len(outs))
 	}
-	ntp.DecodePacket(&ex.Resp, outs[0].Data)
+	respPayload, _, _ := s.T.Unwrap(outs[0])
+	ntp.DecodePacket(&ex.Resp, respPayload)
 	ex.SRx = ntp.TimeFromTime64(ex.Resp.ReceiveTime, rx)
 	_ = stamp
 	// the kernel transmit stamp the listener read back is what it recorded
@@ -200,16 +214,36 @@ func (e *env) realServe(d *vnet.Datagram, fwd time.Duration) *kit.Reply {
 		}
 	}
 	s.Exchs = append(s.Exchs, ex)
-	out := &vnet.Datagram{From: srvAddr, To: d.From, Data: outs[0].Data, Tag: fmt.Sprintf("reply%d", ex.N)}
+	from := srvAddr
+	if e.scion {
+		from = kit.Router
+	}
+	out := &vnet.Datagram{From: from, To: d.From, Data: outs[0].Data, Tag: fmt.Sprintf("reply%d", ex.N)}
 	return &kit.Reply{E: ex, D: out, Left: time.Now()}
 }
 
-func program(r *mc.Run, interleaved, real bool, calls int) func(x *mc.X) {
+func program(r *mc.Run, interleaved, real, overSCION bool, calls int) func(x *mc.X) {
 	return func(x *mc.X) {
 		world.Run(r.T, x, func(w *world.World) {
-			e := &env{w: w, x: x, flt: &kit.RecFilter{}}
+			e := &env{w: w, x: x, flt: &kit.RecFilter{}, scion: overSCION}
 			e.s = kit.NewSim(w, x, kit.IPTransport, srvAddr)
-			if real {
+			if overSCION {
+				e.s = kit.NewSim(w, x, kit.SCIONTransport{}, kit.Router)
+			}
+			if real && overSCION {
+				server.VerifResetTSS()
+				e.sw = kit.NewSCIONWorld(w, kit.SrvHost, false, nil)
+				e.real = &realServer{sock: e.sw.Svc}
+				e.srvTx = map[int]time.Time{}
+				simHook := w.Net.OnSend
+				w.Net.OnSend = func(c *vnet.UDPConn, d *vnet.Datagram) *vnet.TxStamp {
+					if c == e.real.sock {
+						e.srvTx[d.Seq] = w.Clock.Peek()
+						return nil
+					}
+					return simHook(c, d)
+				}
+			} else if real {
 				server.VerifResetTSS()
 				lc := vnet.ListenConfig{}
 				pc, _ := lc.ListenPacket(context.Background(), "udp", srvAddr.String())
@@ -228,6 +262,8 @@ func program(r *mc.Run, interleaved, real bool, calls int) func(x *mc.X) {
 				w.Settle()
 			}
 			c := &client.IPClient{Log: w.Log, InterleavedMode: interleaved, Filter: e.flt}
+			sc := &client.SCIONClient{Log: w.Log, InterleavedMode: interleaved, Filter: e.flt}
+			spath := kit.PathSpec{Kind: "scion", Segs: []int{2, 2}}.SnetPath(kit.CliIA, kit.SrvIA, net.UDPAddrFromAddrPort(kit.Router))
 			for call := 0; call < calls; call++ {
 				gap := gaps[x.Choose(len(gaps), "gap")]
 				if call > 0 {
@@ -245,6 +281,12 @@ func program(r *mc.Run, interleaved, real bool, calls int) func(x *mc.X) {
 				deadline := time.Now().Add(callTimeout)
 				nflt := len(e.flt.Calls)
 				th := w.Go("client", func() {
+					if overSCION {
+						local := udp.UDPAddr{IA: kit.CliIA, Host: &net.UDPAddr{IP: clientIP}}
+						remote := udp.UDPAddr{IA: kit.SrvIA, Host: &net.UDPAddr{IP: kit.SrvHost.AsSlice(), Port: kit.SrvPort}}
+						ts, off, err = client.MeasureClockOffsetSCION(ctx, w.Log, []*client.SCIONClient{sc}, local, remote, []snet.Path{spath})
+						return
+					}
 					ts, off, err = client.MeasureClockOffsetIP(ctx, w.Log, c, &net.UDPAddr{IP: clientIP}, &net.UDPAddr{IP: net.IPv4(10, 0, 0, 1), Port: 123})
 				})
 				for {
@@ -348,9 +390,11 @@ func TestCheck(t *testing.T) {
 		for _, il := range []bool{true, false} {
 			for _, real := range []bool{false, true} {
 				name := fmt.Sprintf("ip/interleaved=%v/realserver=%v", il, real)
-				r.Explore(mc.Config{Name: name, Bound: mc.Pick(r, 3, 4)}, program(r, il, real, mc.Pick(r, 3, 4)))
+				r.Explore(mc.Config{Name: name, Bound: mc.Pick(r, 3, 4)}, program(r, il, real, false, mc.Pick(r, 3, 4)))
+				name = fmt.Sprintf("scion/interleaved=%v/realserver=%v", il, real)
+				r.Explore(mc.Config{Name: name, Bound: mc.Pick(r, 3, 4)}, program(r, il, real, true, mc.Pick(r, 3, 4)))
 			}
 		}
-		r.Extra["rule"] = "histories of 3 (4) MeasureClockOffsetIP calls (each up to 3 exchanges) with the real IPClient, interleaved mode on/off, against a reference server and against the repository's runIPServer; per exchange: request {deliver, drop, duplicate}, server clock offset in {0,+1s,-250ms}, forward/backward delay in {3ms,0,1ns,40ms}, reply {deliver, drop, duplicate, hold and deliver stale later}, client port fresh/reused, kernel rx/tx timestamps present/absent, gap to next call in {1s,0,3s-1ns,3s,3s+1ns,10s}; all histories within 3 (4) deviations"
+		r.Extra["rule"] = "histories of 3 (4) MeasureClockOffsetIP / MeasureClockOffsetSCION calls (each up to 3 exchanges) with the real IPClient and the real SCIONClient (one path), interleaved mode on/off, against a reference server and against the repository's runIPServer / runSCIONServer; per exchange: request {deliver, drop, duplicate}, server clock offset in {0,+1s,-250ms}, forward/backward delay in {3ms,0,1ns,40ms}, reply {deliver, drop, duplicate, hold and deliver stale later}, client port fresh/reused, kernel rx/tx timestamps present/absent, gap to next call in {1s,0,3s-1ns,3s,3s+1ns,10s}; all histories within 3 (4) deviations"
 	})
 }
